@@ -248,6 +248,23 @@ def check_cases(chk, n_cases):
             chk.count("check: " + ("unmaintainable" if exp_exit else "hard only" if n_find else "clean"))
             if problems:
                 chk.violation({"kind": "check_command", **case, "stdout": out, "exit": code}, "; ".join(problems))
+            # ---- a file reached twice in one run (named on the command line and found again inside a directory argument):
+            #      whatever the run lists, its summary count matches the listing (seeded change C02-26: the listing
+            #      de-duplicated, the counters not)
+            if n_find > 0 and chk.rng.random() < 0.5:
+                dup = chk.rng.choice([f[0] for f in files])
+                args2 = chk.rng.choice([[f[0] for f in files] + [dup], [".", dup], [dup, "."]])
+                code2, out2 = run_check(root, args2, False)
+                listing2, summary2 = parse_check_output(out2)
+                m2 = re.search(r"(\d+) files checked, (\d+) functions need refactoring", summary2 or "")
+                chk.evaluations += 1
+                chk.count("check: a file reached twice in one run")
+                if code2 != exp_exit:
+                    chk.violation({"kind": "check_command twice", **case, "arguments": args2, "stdout": out2},
+                                  f"check {args2}: exit status {code2}, expected {exp_exit}")
+                elif m2 is None or int(m2.group(2)) != len(listing2):
+                    chk.violation({"kind": "check_command twice", **case, "arguments": args2, "stdout": out2},
+                                  f"check {args2}: the summary says {summary2!r} but {len(listing2)} functions are listed")
             # ---- model vs implementation
             printed = not (out.strip() == "")
             impl_tree = [code, printed,
